@@ -200,7 +200,12 @@ def main():
             return {'ok': [x]}
         if use_fork:
             return proc.fork_call(fn, soft=soft * max(1, min(len(rs), 4)))
-        return proc.local_call(fn, soft=soft)
+        try:
+            return proc.local_call(fn, soft=soft)
+        finally:
+            # the cyclic collector is disabled (GC is a scheduled op inside runs); reclaim the cycles a batch
+            # leaves behind at a deterministic point between batches, else in-process worlds grow without bound
+            gc.collect()
 
     def same_violation(cfg, ops, sig, variant):
         res = chain(cfg, ops, variant)
